@@ -3,6 +3,7 @@ package checks
 import (
 	"encoding/json"
 	"fmt"
+	"net/http/httptest"
 	"sort"
 	"strings"
 
@@ -63,6 +64,9 @@ type treeResult struct {
 	Result
 	// Again: the same page rendered once more on the same loaded templates
 	Again *Result `json:"again,omitempty"`
+	// Body: what Response writes for the same page and data (only kept when it differs from Out)
+	Body    *string `json:"response_body,omitempty"`
+	BodyErr string  `json:"response_err,omitempty"`
 }
 
 // normalised returns s with the scratch root replaced (each materialisation
@@ -111,6 +115,17 @@ func loadAndRender(c *harness.Check, cs treeCase) treeResult {
 				tr.Again.Err = "(empty error)"
 			}
 		}
+		// a page that renders is delivered by Response as it is
+		if ferr == nil {
+			w := httptest.NewRecorder()
+			rerr := tpl.Response(w, cs.Page, cs.Data.GoMap())
+			if body := w.Body.String(); body != out || rerr != nil {
+				tr.Body = &body
+				if rerr != nil {
+					tr.BodyErr = rerr.Error()
+				}
+			}
+		}
 	})
 	return tr
 }
@@ -143,6 +158,9 @@ func runTreeCase(c *harness.Check, cs treeCase) (treeResult, string) {
 	}
 	if cs.MustContain != "" && !tr.IsErr() && !strings.Contains(tr.Out, cs.MustContain) {
 		return tr, fmt.Sprintf("output lacks %q", cs.MustContain)
+	}
+	if tr.Body != nil {
+		return tr, fmt.Sprintf("the page renders (String: %q) but Response wrote %q and returned %q", clip(tr.Out, 300), clip(*tr.Body, 300), tr.BodyErr)
 	}
 	if tr.Again != nil {
 		if f := cs.Want.matches(*tr.Again); f != "" {
